@@ -12,7 +12,9 @@ S  direct oracle, no model: what the real parser / repository returns must equal
    documented conversions; wrong element header / absent block must raise; install_files(configuration dict with every key)
    must put each file into its own repository family and leave the others empty; for every installer and install_files the
    copy of the file that the documented lookup order designates (adas_path tree, then — with download — the cache) is the
-   one installed; the network is stubbed and must only be reached when the file is nowhere and download=True.
+   one installed; the network is stubbed and must only be reached when the file is nowhere and download=True; install
+   SEQUENCES into one repository (files sharing keys partially) read back completely after every step (last write per key
+   wins); every parse / install entry point gives the same result with equal-but-not-identical species objects.
 """
 import copy
 import json
@@ -126,6 +128,8 @@ def sigcat(msg):
     m = _FIELD.search(msg)
     if m:
         return 'shape-' + m.group(1) if 'shape' in msg else m.group(1)
+    if 'metastable missing' in msg:
+        return 'metastable-missing'
     if 'absent' in msg:
         return 'absent-key-readable'
     if 'unshifted' in msg:
